@@ -49,6 +49,20 @@ class Ctx:
             self._graphs[key] = b.build(unit)
         return self._graphs[key]
 
+    def arm_faulty_subscripts(self) -> int:
+        """Two-phase fault model: look-ups keyed by node results without a membership guard (rule ER-5)
+        become fault sources; the graphs are rebuilt with them."""
+        if getattr(self, '_armed', False):
+            return len(self.faulty_subscripts)
+        self._armed = True
+        from .rules.er import unguarded_partial_lookups
+        bad = {id(ev.node) for g, ev, verdict in unguarded_partial_lookups(self) if verdict == 'unguarded'}
+        if bad:
+            self.faulty_subscripts |= bad
+            self._graphs.clear()
+            self._task_roots = None
+        return len(bad)
+
     def graph_of(self, unit: FuncUnit, depth: Optional[int] = None) -> Graph:
         return self.graph(unit.fid, depth)
 
